@@ -337,6 +337,13 @@ def run(rep):
         if verdict:
             rep.violation(verdict, {"kind": "two-interfaces", "seed": seed})
             break
+    for n in ((90,) if rep.tier == "quick" else (45, 90, 130)):
+        seed = rng.getrandbits(30)
+        verdict = run_many_nested(seed, n)
+        rep.case(("many-nested", n))
+        if verdict:
+            rep.violation(verdict, {"kind": "many-nested", "seed": seed, "n": n})
+            break
     for i in range(30 if rep.tier == "quick" else 600):
         seed = rng.getrandbits(30)
         verdict = run_late_duplicate(seed)
@@ -397,8 +404,9 @@ def replay(rep, path):
     if r.get("kind") == "stack":
         from . import stack
         return stack.replay(rep, r)
-    if r.get("kind") in ("two-interfaces", "late-duplicate"):
-        verdict = run_two_interfaces(r["seed"]) if r["kind"] == "two-interfaces" else run_late_duplicate(r["seed"])
+    if r.get("kind") in ("two-interfaces", "late-duplicate", "many-nested"):
+        verdict = run_two_interfaces(r["seed"]) if r["kind"] == "two-interfaces" else run_late_duplicate(r["seed"]) if r["kind"] == "late-duplicate" \
+            else run_many_nested(r["seed"], r["n"])
         if verdict:
             rep.violation(verdict, r)
         rep.case(str(r))
@@ -581,6 +589,65 @@ def run_late_duplicate(seed, router_cls=c13.Router):
                         f"that arrived on its own interface")
     s.kill_all()
     return ("a repeated answer on one interface while the same Hop-by-Hop is outstanding on another: " + "; ".join(problems)) if problems else None
+
+
+def run_many_nested(seed, n, router_cls=c13.Router):
+    """n requests arrive on one interface; each route function sends a request of its own on the other interface and waits for its
+    answer; the back-end answers only when all n are in flight (a slow peer, a burst).  The library's own Bromelia.main loop reads
+    the workers' queues and starts the threads.  Every nested caller must be woken with its own answer and all n requests answered -
+    for a number of concurrent callers above every threshold constant of the library (40 / 50 / 80)."""
+    from engine import vsched
+    from bromelia.base import DiameterAnswer
+    from bromelia.avps import ResultCodeAVP
+    s = vsched.new_sched(seed, max_steps=400000)
+    router = router_cls.__new__(router_cls)
+    c13.InProcessManager, saved_mgr = SchedManager, c13.InProcessManager
+    try:
+        router.__init__()
+    finally:
+        c13.InProcessManager = saved_mgr
+    app = router.app
+    rng = random.Random(seed)
+    w1, w2 = router.workers[c13.app_bytes("a1")], router.workers[c13.app_bytes("a2")]
+    nested, front_out, got = [], [], {}
+
+    # (requests are built beforehand: drawing identifiers takes the library's real identifiers lock around a scheduler yield point)
+    subs = {k: c13.make_request("a2", "c2", 1000 + k, rng) for k in range(1, n + 1)}
+
+    def handler(request):
+        k = int(request.user_name_avp.data[4:])
+        sub = subs[k]
+        ans = app.send_message(sub)
+        got[k] = ans is not None and not ans.header.is_request() and ans.header.hop_by_hop == sub.header.hop_by_hop
+        return c13.make_answer(request, rng)
+    router.register(c13.app_bytes("a1"), c13.cmd_bytes("c1"), handler)
+    w1.app = AppProxy(w1.app, front_out.append)
+    w2.app = AppProxy(w2.app, nested.append)
+    lib = [s.spawn("send_handler1", w1.send_handler), s.spawn("send_handler2", w2.send_handler), s.spawn("bromelia_main", app.main)]
+    reqs = [c13.make_request("a1", "c1", k, rng) for k in range(1, n + 1)]
+    out = "ok"
+    try:
+        for r in reqs:
+            w1.notify_incoming_message(r)
+        s.run(until=lambda: len(nested) >= n, max_steps=300000)
+        if len(nested) < n:
+            out = f"only {len(nested)} of {n} route functions got as far as sending their own request"
+        else:
+            for sub in nested[:n]:
+                w2.notify_incoming_message(DiameterAnswer(header=sub.header, avps=[ResultCodeAVP(2001)]))
+            s.run(until=lambda: len([m for m in front_out if not m.header.is_request()]) >= n, max_steps=300000)
+    except vsched.Deadlock as e:
+        out = "deadlock: " + str(e)[:300]
+    except (vsched.StepLimit, vsched.StepHang) as e:
+        out = type(e).__name__ + ": " + str(e)[:200]
+    answered = len([m for m in front_out if not m.header.is_request()])
+    woken = sum(1 for v in got.values() if v)
+    dead = [(t.name, f"{type(t.exc).__name__}: {t.exc}") for t in lib if t.done]
+    s.kill_all()
+    if out != "ok" or answered != n or woken != n or dead:
+        return (f"{n} route functions each waiting for the answer to a request of their own: {woken} were woken with their own answer, {answered} of the {n} "
+                f"requests were answered ({out}); library loops that ended: {dead}")
+    return None
 
 
 def run_two_interfaces(seed, router_cls=c13.Router):
